@@ -441,15 +441,18 @@ class AirTouchSocket(Generic[comms.Hdr]):
                 entry = self._message_queue.popleft()
 
                 if self._loop.time() < entry.expiry:
-                    await self._write(entry.header, entry.message)
+                    try:
+                        await self._write(entry.header, entry.message)
+                    except (ValueError, NotImplementedError, struct.error):
+                        # This indicates an error encoding this message.
+                        # We shouldn't retry this message, but the connection
+                        # doesn't need to be reset and the remaining messages
+                        # can still be sent.
+                        _LOGGER.exception(
+                            "Encoding error for message %s", entry.message
+                        )
                 else:
                     self._log_dropped_message(entry, "expired")
-
-        except (ValueError, NotImplementedError, struct.error):
-            # This indicates an error encoding this message.
-            # We shouldn't retry this message, but the connection doesn't need
-            # to be reset.
-            _LOGGER.exception("Encoding error for message %s", entry.message)
 
         except OSError as ex:
             # Connection errors may turn up here rather than in the read method.
